@@ -124,6 +124,30 @@ func (m *ValSets) AfterStep(c *sim.Cluster) []ev.Violation {
 				if maxr >= 0 {
 					st.cur = st.ref[maxr]
 				}
+				// "all honest nodes report the same validator-set history": what the reset node adopted must
+				// contain every entry a full-history node holds up to the latest adopted round
+				for _, f := range c.Nodes {
+					if f == nil || f.Down || !f.FullHistory() || f.Idx == n.Idx {
+						continue
+					}
+					fall, err := f.Node.GetAllValidatorSets()
+					if err != nil {
+						continue
+					}
+					for r, ps := range fall {
+						if r > maxr {
+							continue
+						}
+						want := strings.Join(keysOf(ps), ",")
+						got, ok := st.ref[r]
+						if !ok || strings.Join(got, ",") != want {
+							out = append(out, ev.Violation{Property: "C10", Key: "reset-node-history-differs",
+								What:   fmt.Sprintf("node %d reset itself from a peer's frame and now reports [%s] (present=%v) as validator set of round %d; full-history node %d reports [%s]", n.Idx, abbrev(c, strings.Join(got, ",")), ok, r, f.Idx, abbrev(c, want)),
+								Replay: replay(c, map[string]interface{}{"node": n.Idx, "round": r})})
+						}
+					}
+					break
+				}
 				if lb, ok := n.Node.VHashgraph().VRoundLowerBound(); ok {
 					st.fromRnd = lb
 				}
